@@ -27,6 +27,9 @@ CHECKS = {
     "C10": ("translation_validation", "E1 bp2smt twins",
             "Two blueprints of the same source (optimised / --no-optimize) produced by the real compiler are encoded side by side over shared input variables; z3 decides equality of every common named output and entity condition for all inputs, and of the end-of-step values for all K-step histories of stateful programs.",
             "SMT equivalence checking of two emitted blueprints (all inputs / bounded histories)"),
+    "C11": ("other", "E2 pyast2smt + E1 bp2smt",
+            "Integer-kernel property. E2: the three fold kernels are re-read from /repo at every run, specialised per operator and executed symbolically (vf/pyast2smt.py: paths as ite, Python ints as bit-vectors whose width is justified by interval analysis); z3 decides per operator and sign region, over ALL int32 operand pairs in the interpreted domain, that an in-range folded value equals the run-time value; models are replayed on the real function. E1: the same constant expression in 16 syntactic positions is validated against the run-time reference for all values of the other inputs.",
+            "symbolic execution of the real fold kernels from source (AST -> z3 bit-vectors) + SMT translation validation of folded blueprints"),
     "C12": ("translation_validation", "E1 bp2smt twins",
             "build(P||Q) for order-preserving interleavings is compared with build(P) and build(Q) over disjoint input variables: z3 decides that P's outputs and entity conditions are the same functions of P's inputs alone (hence independent of every input of Q), and vice versa.",
             "SMT equivalence / non-interference of emitted blueprints, all inputs of P and Q"),
@@ -39,6 +42,9 @@ CHECKS = {
     "C16": ("translation_validation", "E1 bp2smt",
             "The blueprint of a program with for loops is compared, for all inputs, with the generator's own unrolling (mathematical range definition); placed entities compared as a multiset.",
             "SMT translation validation against an unrolling reference"),
+    "C17": ("translation_validation", "E1 bp2smt",
+            "Library: each documented function of lib/math.facto, compiled through a one-line caller, equals its documented definition for ALL int32 arguments satisfying a no-overflow precondition written as a formula. Imports: generated import graphs on disk (chains, diamonds, cycles, sub-directories, decoy files) compiled from three working directories equal the pasted twin for all inputs.",
+            "SMT translation validation against documented definitions under formula preconditions; import graphs enumerated"),
     "C20": ("translation_validation", "E1 bp2smt + closed clauses",
             "At the anchor labelled with each unconsumed top-level name z3 decides that the result's own signal (every signal for bundles) equals the reference for all inputs; closed clauses: exactly one wired empty anchor per unconsumed name, none for consumed names, producer labelled with name and source line, inputs labelled with name and value.",
             "SMT translation validation keyed by every unconsumed name + closed label clauses"),
@@ -86,6 +92,7 @@ def main():
         },
         "engines": [
             {"name": "E1 bp2smt", "path": "/verif/vf", "serves_properties": sorted(CHECKS), "kind_free_text": "emitted blueprint JSON -> z3 QF_UFBV; inputs, histories, entity contents symbolic; reference from the generator's own AST"},
+            {"name": "E2 pyast2smt / CrossHair", "path": "/verif/vf/pyast2smt.py", "serves_properties": ["C11"], "kind_free_text": "compiler kernels executed symbolically from their current source (AST -> z3) or by CrossHair on the real functions"},
         ],
         "checks": checks,
         "not_applicable": na,
